@@ -1,7 +1,7 @@
 """C11 — the syntax trees of a specification reflect the source exactly and round-trip."""
 from .speccommon import *
 
-LEVEL = "other"
+LEVEL = "proof"
 K = 4
 ASSOC = {"@none": 0, "@left": 1, "@right": 2}
 
@@ -183,11 +183,21 @@ def run(ctx):
     trees = [None] * len(special) + [c[0] for c in cases]
     lines = [hx(t) for t in texts]
     typed = ctx.run_impl_par("ebnftyped", lines, isolate=True)
+    typed_model = ctx.run_model_par("ebnftyped", lines)
     rnd = ctx.run_impl_par("ebnfround", lines, isolate=True)
     gen = ctx.run_impl_par("ebnftree", lines, isolate=True)
     scan = ctx.run_impl_par("scan", lines, isolate=True)
     specs = ctx.run_impl_par("spec", lines, isolate=True)
-    stats = {"typed_trees_compared_with_source_tree": 0, "round_trips": 0, "generic_trees": 0, "languages_compared": 0, "rejected": 0, "explained_by_known_findings": 0}
+    # the tie of the typed-tree model (EbnfTyped.typedAction, about which C11_typed_* are proved) to ast.Parse
+    ntyped = 0
+    for text, ty, tm in zip(texts, typed, typed_model):
+        same = (ty == tm) if (ty.startswith("OK") or tm.startswith("OK")) else (ty.split(" ")[0] == tm.split(" ")[0])
+        if not same:
+            ntyped += 1
+            if ntyped <= 3:
+                ctx.add_broken("correspondence: the model of the typed-tree actions and ast.Parse disagree on a specification",
+                               "input=%r\nimpl=%s\nmodel=%s" % (text, decode_hex_fields(ty)[:800], decode_hex_fields(tm)[:800]))
+    stats = {"typed_model_disagreements": ntyped, "typed_trees_compared_with_source_tree": 0, "round_trips": 0, "generic_trees": 0, "languages_compared": 0, "rejected": 0, "explained_by_known_findings": 0}
     distinct = set()
     for text, tree, ty, rt, gt, sc_, sp in zip(texts, trees, typed, rnd, gen, scan, specs):
         for who, o in (("ast.Parse", ty), ("ParseAndBuildAST", gt)):
